@@ -417,10 +417,12 @@ int xmp_set_player__(xmp_context opaque, int parm, int val)
 
 	/* 4.4 */
 	case XMP_PLAYER_MODE:
-		p->mode = val;
-		libxmp_set_player_mode(ctx);
-		libxmp_scan_sequences(ctx);
-		ret = 0;
+		if (val >= XMP_MODE_AUTO && val <= XMP_MODE_ITSMP) {
+			p->mode = val;
+			libxmp_set_player_mode(ctx);
+			libxmp_scan_sequences(ctx);
+			ret = 0;
+		}
 		break;
 	case XMP_PLAYER_VOICES:
 		s->numvoc = val;
